@@ -257,6 +257,12 @@ def explore(item):
         padded += [[c + " " * 4 for c in pool[0]]]
         for rows in ([r] for r in padded):
             judge({"config": config, "runs": [dict(writer, table=header_rows + rows + [pool[0]])]}, part)
+    # writer only: header rows whose cells hold line breaks or are ragged still count as one row each
+    if config["preset"] != "fixed" and config["header"]:
+        for cell in ("a\nb", "a\r\nb\nc", "\n"):
+            odd_header = [[cell] + ["ab"] * (len(decls) - 1)] * config["header"]
+            for rows in ([], pool[:1], pool[:3]):
+                judge({"config": config, "runs": [{"kind": "writer", "table": odd_header + [list(r) for r in rows]}]}, part)
     # two runs on one CID
     short_tables = [header_rows + [pool[i] for i in indexes] for length in (0, 1) for indexes in itertools.product(range(min(len(pool), 4)), repeat=length)]
     seconds = [v for v in run_variants("quick") if v.get("limit") in (None,) ]
